@@ -384,6 +384,14 @@ func (j *judge) followUp(doc *document.Document) {
 		res.Label("opened-tables")
 	}
 
+	// re-save of the document exactly as opened (before any edit changes relationship counts, ids, tables)
+	res.Eval(S)
+	var out0 []byte
+	var serr0 error
+	if j.call(S, "ToBytes (unedited)", "", func() { out0, serr0 = doc.ToBytes() }) && serr0 == nil {
+		j.checkSaved(out0)
+	}
+
 	// per opened table: accessors, then the edit script; only the first few and the last table of huge documents
 	sel := tables
 	if len(sel) > maxTablesEdited {
